@@ -1,3 +1,4 @@
+import Sparrow.Proofs.Relabel
 import Sparrow.Proofs.PipelineTranslation
 import Sparrow.Proofs.PointPatchLemmas
 import Sparrow.Proofs.StokesLemmas
@@ -129,3 +130,27 @@ theorem basicVisibility_symm (eta : ℝ) (heta : 0 ≤ eta) (a b : Vec3 ℝ) (po
   Sparrow.basicVisibility_symm eta heta a b poly m n
 
 end Sparrow.Props.C17
+
+namespace Sparrow.Props.C17.Relabel
+open Sparrow
+
+/-- every order histogram is renumbered, nothing else changes -/
+theorem orderH_relabel (sc : ExScene ℝ) (hwf : sc.WF) (σ τ : Nat → Nat) (h : IsRelabel sc.P σ τ)
+    (k j d t : Nat) (hj : j < sc.P) :
+    orderH (sc.relabel σ τ) k (σ j) d t = orderH sc k j d t :=
+  Sparrow.orderH_relabel sc hwf σ τ h k j d t hj
+
+/-- … hence the accumulated histograms -/
+theorem etc_relabel (sc : ExScene ℝ) (hwf : sc.WF) (σ τ : Nat → Nat) (h : IsRelabel sc.P σ τ)
+    (K j d t : Nat) (hj : j < sc.P) :
+    etc (sc.relabel σ τ) K (σ j) d t = etc sc K j d t :=
+  Sparrow.etc_relabel sc hwf σ τ h K j d t hj
+
+/-- … and the receiver curve of the code (receiver data renumbered alike) is unchanged. -/
+theorem monoCurveCode_relabel (sc : ExScene ℝ) (hwf : sc.WF) (σ τ : Nat → Nat) (h : IsRelabel sc.P σ τ)
+    (K : Nat) (g w : Nat → ℝ) (binR : Nat → Nat) (t : Nat) :
+    monoCurveCode (sc.relabel σ τ) K (fun j => g (τ j)) (fun j => w (τ j)) (fun j => binR (τ j)) t =
+      monoCurveCode sc K g w binR t :=
+  Sparrow.monoCurveCode_relabel sc hwf σ τ h K g w binR t
+
+end Sparrow.Props.C17.Relabel
